@@ -1,5 +1,5 @@
 (* C19 — BLE advertisement handling decrypts and dispatches correctly and never crashes. *)
-From GV Require Import Ble.GoSem Gen.BleImpl Ble.Layout Ble.RefineTac Ble.Handler Ble.HandlerFacts.
+From GV Require Import Ble.GoSem Gen.BleImpl Ble.Layout Ble.RefineTac Ble.Handler Ble.HandlerFacts Ble.Aes Ble.AesFacts Ble.AesHandler.
 Open Scope Z_scope.
 
 (* padding: for every data length and every block size 1..255, between 1 and blocksize bytes
@@ -60,3 +60,31 @@ Print Assumptions C19_mac_lookup.
 Theorem C19_mac_address : forall mac, mac <> [] -> bluez_addr_bytes (render_mac mac) = mac.
 Proof. exact bluez_addr_of_render. Qed.
 Print Assumptions C19_mac_address.
+
+(* AES itself.  aes_encrypt (Ble/Aes.v) is FIPS-197's Cipher for 128/192/256-bit keys; it
+   reproduces the standard's example vectors (Appendix B and C.1-C.3) ... *)
+Theorem C19_aes_fips197 :
+  aes_encrypt_z (map Z.of_nat (seq 0 16)) fips_plain =
+    [0x69;0xc4;0xe0;0xd8;0x6a;0x7b;0x04;0x30;0xd8;0xcd;0xb7;0x80;0x70;0xb4;0xc5;0x5a] /\
+  aes_encrypt_z (map Z.of_nat (seq 0 24)) fips_plain =
+    [0xdd;0xa9;0x7c;0xa4;0x86;0x4c;0xdf;0xe0;0x6e;0xaf;0x70;0xa0;0xec;0x0d;0x71;0x91] /\
+  aes_encrypt_z (map Z.of_nat (seq 0 32)) fips_plain =
+    [0x8e;0xa2;0xb7;0xca;0x51;0x67;0x45;0xbf;0xea;0xfc;0x49;0x90;0x4b;0x49;0x60;0x89] /\
+  aes_encrypt_z
+    [0x2b;0x7e;0x15;0x16;0x28;0xae;0xd2;0xa6;0xab;0xf7;0x15;0x88;0x09;0xcf;0x4f;0x3c]
+    [0x32;0x43;0xf6;0xa8;0x88;0x5a;0x30;0x8d;0x31;0x31;0x98;0xa2;0xe0;0x37;0x07;0x34] =
+    [0x39;0x25;0x84;0x1d;0x02;0xdc;0x09;0xfb;0xdc;0x11;0x85;0x97;0x19;0x6a;0x0b;0x32].
+Proof. exact (conj fips197_c1 (conj fips197_c2 (conj fips197_c3 fips197_b))). Qed.
+Print Assumptions C19_aes_fips197.
+
+(* ... and, under the device's key (16, 24 or 32 bytes), the handler's plaintext is the
+   AES-CTR decryption: the record's first |enc| plaintext bytes are enc xor the AES key stream
+   of the counter blocks starting at the little-endian nonce, whatever the padding adds *)
+Theorem C19_aes_ctr : forall key b0 b1 b2 b3 rtype nlo nhi b7 enc,
+  In (List.length key) [16; 24; 32]%nat -> (1 <= List.length enc)%nat ->
+  let plain := ctr_decrypt (aes_encrypt key) nlo nhi (pkcs7 enc 16) in
+  handle (aes_encrypt key) (List.length key) (b0 :: b1 :: b2 :: b3 :: rtype :: nlo :: nhi :: b7 :: enc) =
+    (if bz rtype =? 1 then HSolar plain (DecodeSolarChargeRecord plain) else HPlain plain) /\
+  firstn (List.length enc) plain = ctr_decrypt (aes_encrypt key) nlo nhi enc.
+Proof. exact handle_aes_ctr. Qed.
+Print Assumptions C19_aes_ctr.
